@@ -506,9 +506,13 @@ TrToolSumCheck == IsEv("tool.sumcheck") /\ LET ev == T[l]
       allgood == ev.nbad = 0 /\ \A i \in DOMAIN ev.files : ev.files[i].changed = 0 IN
   Step(objs, <<0, [i \in DOMAIN ev.files |-> ev.files[i].changed = 0], allgood>>,
              <<ev.gen_exit, [i \in DOMAIN ev.files |-> ev.files[i].reported = "OK"], ev.exit = 0>>)
+\* a read error on a file: no digest is printed for it, it is not reported OK, the exit status is non-zero
+TrToolSumFault == IsEv("tool.sumfault") /\ LET ev == T[l] IN
+  IF ev.tripped = 1 THEN Step(objs, <<TRUE, 0, 0>>, <<ev.exit # 0, ev.printed, ev.reported_ok>>)
+  ELSE Step(objs, <<0, 1>>, <<ev.exit, IF ev.check = 1 THEN ev.reported_ok ELSE ev.printed>>)
 \* C12: any argument vector - no signal, no sanitizer report
 TrToolArgs == IsEv("tool.args") /\ LET ev == T[l] IN Step(objs, <<0, 0>>, <<ev.signaled, ev.sanitizer>>)
-ToolNext == TrToolCrypt \/ TrToolGenKey \/ TrToolSum \/ TrToolSumCheck \/ TrToolArgs
+ToolNext == TrToolCrypt \/ TrToolGenKey \/ TrToolSum \/ TrToolSumCheck \/ TrToolSumFault \/ TrToolArgs
 
 -----------------------------------------------------------------------------
 Next == TrReset \/ PermNext \/ SpongeNext \/ AeadNext \/ AeadIncNext \/ KdfNext \/ IsapNext \/ PrngNext \/ MiscNext \/ ExtraNext \/ BaNext \/ MaskedNext \/ ToolNext
